@@ -99,6 +99,10 @@ CfiOf(cl, i, nb, units, isData) ==
             [] cl = "proc_all" ->
                  (IF i = 1 THEN << <<0, Start7>> >> \o (IF o1 < n THEN << <<o1, << <<"cfi_def_cfa_offset", 16>> >> >> >> ELSE <<>>) ELSE <<>>)
                  \o (IF i = nb THEN << <<n, << <<"cfi_endproc">> >> >> >> ELSE <<>>)
+            \* one procedure that ends INSIDE the last block (body and trailing padding in one block)
+            [] cl = "proc_mid" ->
+                 (IF i = 1 THEN << <<0, Start7>> >> ELSE <<>>)
+                 \o (IF i = nb THEN << <<(IF o1 < n THEN o1 ELSE n), << <<"cfi_endproc">> >> >> >> ELSE <<>>)
             \* two procedures: A over all blocks but the last, B over the last block
             [] cl = "proc_split" ->
                  (IF i = 1 /\ nb > 1 THEN << <<0, Start7>> >> ELSE <<>>)
@@ -163,7 +167,7 @@ ShapeParams ==
      /\ (p.layout \in {"split", "tail"} => p.nb >= 2 /\ ~IsData(p.tpl[2]))
      /\ (p.layout \in {"one", "split", "one2"} => ~IsData(p.tpl[1]))
      /\ (p.layout = "one2" => p.nb >= 2 /\ ~IsData(p.tpl[p.nb]))
-     /\ (p.cl \in {"proc_all", "proc_rs"} => ~IsData(p.tpl[1]) /\ ~IsData(p.tpl[p.nb]))
+     /\ (p.cl \in {"proc_all", "proc_rs", "proc_mid"} => ~IsData(p.tpl[1]) /\ ~IsData(p.tpl[p.nb]))
      \* (sharing needs two returns)
      /\ (p.sr => Cardinality({i \in 1..p.nb : p.tpl[i] \in {"ret", "ret1"}}) >= 2)
      /\ (p.cl = "proc_split" => p.nb >= 2 /\ \A i \in 1..p.nb : ~IsData(p.tpl[i]))
